@@ -4,12 +4,11 @@ Vec<OperationMeta>; accounts are always-yes / always-no custom-account contracts
 from common import set_field
 
 NAME = "TimelockController"
-F = frozenset
 ALL_OPS = {"U0", "U3", "GX", "GP", "RX", "RP", "SR", "TA", "RN"}
 ALL_CALLS = {"ud0", "ud3", "grXs", "grPs", "rvXx", "rvPp", "sra", "tar", "rna"}
 _c = dict(Execs0=set(), SchedOps={"U0"}, SchedWhos={"p"}, ExecWhos={"none"}, Auths={True}, Delays={1}, DTs={0, 1},
           Calls={"ud0"}, Entries={True}, DPreds={"none"}, DSalts={0}, DExecs={"none"}, MetaLens={1}, Subs={"none"},
-          XAuths={F()}, ChkCtxs=set(), Now0=10, Min0=1, BUG_C09_ZIP=False, Emit=True)
+          XAuths={"none"}, ChkCtxs=set(), Now0=10, Min0=1, BUG_C09_ZIP=False, Emit=True)
 _payload = dict(_c, SchedOps={"U0", "U0s"}, DSalts={0, 1}, DPreds={"none", "E"}, MetaLens={0, 1, 2},
                 Subs={"none", "ud0"}, Entries={True, False},
                 ChkCtxs={"ud0", "foreign", "create", "ud0_ud3", "ud0_ud0", "ud0_foreign", "empty"})
@@ -80,14 +79,14 @@ MODEL = dict(
         # every caller with / without authorization
         dict(name="executor", module="MC_TimelockController",
              constants=dict(_c, Execs0={"x", "n"}, SchedOps={"U0", "E"}, DExecs={"none", "x", "n", "s"}, MetaLens={0, 1},
-                            XAuths={F(), F({"x"}), F({"n"}), F({"s"}), F({"x", "n", "s"})},
+                            XAuths={"none", "x", "n", "s", "xns"},
                             ExecWhos={"none", "x", "n", "s"}, Auths={True, False}, ChkCtxs={"ud0"}, Depth=3),
              thorough=dict(Depth=4),
              invariants=["NoViolation", "Refines"]),
         # the executor configuration itself changes through consumed operations (grant s / revoke x)
         dict(name="execcfg", module="MC_TimelockController",
              constants=dict(_c, Execs0={"x"}, SchedOps={"U0", "RX", "GX"}, Calls={"ud0", "rvXx", "grXs"},
-                            DExecs={"none", "x", "s"}, MetaLens={0, 1}, XAuths={F(), F({"x"}), F({"s"})}, DTs={1}, Depth=4),
+                            DExecs={"none", "x", "s"}, MetaLens={0, 1}, XAuths={"none", "x", "s"}, DTs={1}, Depth=4),
              thorough=dict(Depth=5),
              invariants=["NoViolation", "Refines"]),
         # every admin-only entry point, operation unset / waiting / ready / done / cancelled
